@@ -113,10 +113,10 @@ MACPayloadBytes(f) ==
 EncodeFrame(f) == <<MHDRByte(f.mtype, f.major)>> \o MACPayloadBytes(f) \o f.mic
 
 \* ---- decoding (total: a frame or FErr) -------------------------------------------------------------
-DecodeJoinAccept(mp) ==     \* decrypted join-accept MACPayload: 12 or 28 bytes
+DecodeJoinAccept(mp) ==     \* decrypted join-accept MACPayload: 12 or 28 bytes; bits 7..4 of the RxDelay byte are RFU (ignored)
   [joinnonce |-> SubSeq(mp, 1, 3) \o <<0>>, netid |-> Rev(SubSeq(mp, 4, 6)), devaddr |-> Rev(SubSeq(mp, 7, 10)),
    dl |-> [optneg |-> Bit(mp[11], 7), rx1off |-> Bits(mp[11], 4, 3), rx2dr |-> Bits(mp[11], 0, 4)],
-   rxdelay |-> mp[12], cflist |-> IF Len(mp) = 28 THEN <<DecodeCFList(SubSeq(mp, 13, 28))>> ELSE <<>>]
+   rxdelay |-> mp[12] % 16, cflist |-> IF Len(mp) = 28 THEN <<DecodeCFList(SubSeq(mp, 13, 28))>> ELSE <<>>]
 
 DecodeFrame(b) ==
   IF Len(b) < 5 THEN FErr ELSE
